@@ -1,7 +1,9 @@
 (* Proofs/DomRel.v -- the step from the DOM (`node`) to the render tree (`rnode`):
-   `process` / `dom_to_render_tree` / `to_render_tree`.
-   PART 1 (C03): the visible document characters of the render tree are those of the DOM.
-   PART 2 (C14): fragment markers.   PART 3 (C13): whitespace runs in text nodes.
+   `process` / `dom_to_render_tree` / `to_render_tree`.  No axioms.
+   PART 1 (C03): the visible document characters of the render tree are those of the DOM
+                 (c03_dom_visible, c03_dom_doc_stream, c03_dom_string, c03_dom_lines).
+   PART 2 (C14): fragment markers (c14_dom_tree, c14_dom_lines, c14_dom_markers).
+   PART 3 (C13): whitespace runs in text nodes (c13_dom_trees, c13_dom_ws_equiv, c13_dom_string).
    SUMMARY (exact statements, hypotheses, findings) at the end of the file. *)
 From H2T Require Import Base Tagged Wrap Sub Css Dom Render Api.
 From H2T Require Import Proofs.Conserve Proofs.RenderWidth Proofs.Footnotes Proofs.RenderConserve.
@@ -2066,3 +2068,536 @@ Print Assumptions c13_dom_trees.
 Print Assumptions c13_dom_ws_equiv.
 Print Assumptions c13_dom_string.
 Print Assumptions c13_dom_nodoccss.
+
+(* ================================================================== *)
+(* 5. A purely syntactic sufficient condition for doc_plain             *)
+(* ================================================================== *)
+
+(* (a) no display:none anywhere in the style data, document CSS off *)
+Definition decl_no_hide (sdl : styledecl) : bool :=
+  match sd_style sdl with SDisplayNone => false | _ => true end.
+Definition rules_no_hide (rs : list ruleset) : bool :=
+  forallb (fun r => forallb decl_no_hide (rs_styles r)) rs.
+Definition sheet_no_hide (sd : styledata) : bool :=
+  rules_no_hide (agent_rules sd) && rules_no_hide (user_rules sd) && rules_no_hide (author_rules sd).
+
+Definition shown (cs : cstyle) : Prop := ws_val (c_display (cs_core cs)) = None.
+
+Lemma merge_shown cs imp o sp ps sdl :
+  decl_no_hide sdl = true -> shown cs ->
+  shown (merge_computed_style cs imp o sp ps (sd_style sdl)).
+Proof.
+  unfold decl_no_hide, shown. intros Hd Hs.
+  destruct ps as [[|]|]; cbn [merge_computed_style cs_core]; try exact Hs.
+  destruct (sd_style sdl); try discriminate Hd; cbn [merge_core c_display]; exact Hs.
+Qed.
+
+Lemma fold_merge_shown (f : styledecl -> bool * origin * spec * option pseudo) : forall l cs,
+  forallb decl_no_hide l = true -> shown cs ->
+  shown (fold_left (fun acc sdl => merge_computed_style acc (fst (fst (fst (f sdl)))) (snd (fst (fst (f sdl))))
+                                     (snd (fst (f sdl))) (snd (f sdl)) (sd_style sdl)) l cs).
+Proof.
+  induction l as [|x l IH]; intros cs Hl Hs; [exact Hs|]. cbn [forallb] in Hl.
+  apply andb_true_iff in Hl. destruct Hl as [Hx Hl]. cbn [fold_left]. apply IH; [exact Hl|].
+  apply merge_shown; assumption.
+Qed.
+
+Lemma apply_rules_shown o p : forall rules cs,
+  rules_no_hide rules = true -> shown cs -> shown (apply_rules o rules p cs).
+Proof.
+  induction rules as [|r rules IH]; intros cs Hr Hs; [exact Hs|]. cbn [rules_no_hide forallb] in Hr.
+  apply andb_true_iff in Hr. destruct Hr as [H1 H2]. cbn [apply_rules]. apply IH; [exact H2|].
+  destruct (sel_matches (rs_sel r) p); [|exact Hs].
+  exact (fold_merge_shown (fun sdl => (sd_important sdl, o, specificity (rs_sel r), pseudo_el (rs_sel r)))
+                          (rs_styles r) cs H1 Hs).
+Qed.
+
+Lemma computed_shown sd p : sheet_no_hide sd = true -> shown (computed_style sd p []).
+Proof.
+  unfold sheet_no_hide. intros H. apply andb_true_iff in H. destruct H as [H H3].
+  apply andb_true_iff in H. destruct H as [H1 H2]. unfold computed_style. cbn [fold_left].
+  apply apply_rules_shown; [exact H3|]. apply apply_rules_shown; [exact H2|].
+  apply apply_rules_shown; [exact H1|]. reflexivity.
+Qed.
+
+Lemma hidden_false sd inl me attrs : sheet_no_hide sd = true -> hidden sd false inl me attrs = false.
+Proof. intros H. unfold hidden. rewrite (computed_shown sd me H). reflexivity. Qed.
+
+(* (b) no <sup> element has an all-digit text node among its children *)
+Definition digit_text (k : node) : bool :=
+  match k with NText s => forallb is_ascii_digit s | _ => false end.
+Fixpoint nsd (n : node) {struct n} : bool :=
+  match n with
+  | NElem html name attrs kids =>
+    (if html then match kind_of name with KSup => negb (existsb digit_text kids) | _ => true end
+     else true) && forallb nsd kids
+  | _ => true
+  end.
+Definition dom_nsd (doc : list node) : bool := forallb nsd doc.
+
+Definition is_text (x : rnode) : bool := match rn_info x with IText _ => true | _ => false end.
+
+Lemma insert_child_not_text a n b : is_text (insert_child a n b) = false.
+Proof.
+  destruct n as [i st]. destruct i; cbn [insert_child]; try reflexivity; try (destruct b; reflexivity).
+  - destruct r; reflexivity.
+  - destruct c; reflexivity.
+Qed.
+Lemma wrap_pseudo_not_text computed n : is_text n = false -> is_text (wrap_pseudo computed n) = false.
+Proof.
+  intros H. unfold wrap_pseudo.
+  destruct (cs_after computed) as [c|].
+  - destruct (ws_val (c_content c)); [apply insert_child_not_text|].
+    destruct (cs_before computed) as [c'|]; [|exact H].
+    destruct (ws_val (c_content c')); [apply insert_child_not_text|exact H].
+  - destruct (cs_before computed) as [c'|]; [|exact H].
+    destruct (ws_val (c_content c')); [apply insert_child_not_text|exact H].
+Qed.
+Lemma base_of_not_text K attrs computed cs x :
+  base_of K attrs computed cs = Ok (Some x) -> is_text x = false.
+Proof.
+  destruct K; cbn [base_of]; unfold noempty_, mk_; intros H;
+    try (first [discriminate H|ok_inv H; reflexivity]);
+    try (destruct cs; first [discriminate H|ok_inv H; reflexivity]).
+  - destruct (img_attrs attrs None None) as [[title|] [src|]]; first [discriminate H|ok_inv H; reflexivity].
+  - destruct (find_attr attrs s_href); [destruct (existsb _ cs)|]; first [discriminate H|ok_inv H; reflexivity].
+  - destruct (flat_map _ cs); [discriminate H|]. bind_inv H t Ht. ok_inv H.
+    unfold render_table_new in Ht. bind_inv Ht ps Hps. bind_inv Ht rows' Hr. ok_inv Ht. reflexivity.
+  - destruct cs; [discriminate H|]. bind_inv H rows' Hr. ok_inv H. reflexivity.
+Qed.
+
+Lemma process_elem_not_text sd udc inl html name attrs kids p idx x :
+  process sd udc inl (NElem html name attrs kids) p idx = Ok (Some x) -> is_text x = false.
+Proof.
+  rewrite process_eq. unfold pbody. intros H. bind_inv H inls Hinl.
+  set (computed := computed_style sd _ inls) in *.
+  destruct (ws_val (c_display (cs_core computed))); [discriminate H|].
+  bind_inv H base Hbase.
+  assert (Hb : forall b, base = Some b -> is_text b = false).
+  { intros b ->. destruct html; cbn [negb] in Hbase.
+    - rewrite html_base_eq in Hbase. destruct (kind_leaf (kind_of name)).
+      + apply (base_of_not_text _ _ _ _ _ Hbase).
+      + bind_inv Hbase cs Hcs. apply (base_of_not_text _ _ _ _ _ Hbase).
+    - bind_inv Hbase cs Hcs. destruct cs; [discriminate Hbase|]. ok_inv Hbase. reflexivity. }
+  destruct (fragment_of name _ attrs) as [f|].
+  - destruct base as [b|]; ok_inv H; [apply insert_child_not_text|reflexivity].
+  - destruct base as [b|]; [|discriminate H]. ok_inv H. apply wrap_pseudo_not_text, Hb. reflexivity.
+Qed.
+
+Lemma pk_text_origin sd udc inl me : forall kids i cs,
+  pk_of (fun k i => process sd udc inl k me i) kids i = Ok cs ->
+  forall x, In x cs -> is_text x = true -> exists s, In (NText s) kids /\ rn_info x = IText s.
+Proof.
+  induction kids as [|k kids IH]; intros i cs H x Hx Ht; cbn [pk_of] in H.
+  - ok_inv H. contradiction.
+  - bind_inv H r Hr. bind_inv H rs0 Hrs. ok_inv H.
+    assert (Hrest : In x rs0 -> exists s, In (NText s) (k :: kids) /\ rn_info x = IText s).
+    { intros Hin. destruct (IH _ _ Hrs x Hin Ht) as (s & Hs & E). exists s. split; [right; exact Hs|exact E]. }
+    destruct r as [y|]; [|apply Hrest, Hx]. destruct Hx as [<-|Hx]; [|apply Hrest, Hx].
+    destruct k as [html name attrs kk|t| |]; cbn [Dom.process] in Hr; try discriminate Hr.
+    + rewrite (process_elem_not_text _ _ _ _ _ _ _ _ _ _ Hr) in Ht. discriminate Ht.
+    + ok_inv Hr. exists t. split; [left; reflexivity|reflexivity].
+Qed.
+
+Lemma plain_suff sd inl : sheet_no_hide sd = true -> forall n p idx,
+  nsd n = true -> plain sd false inl n p idx = true.
+Proof.
+  intros Hs. apply (node_ind' (fun n => forall p idx, nsd n = true -> plain sd false inl n p idx = true));
+    try reflexivity.
+  intros html name attrs kids IH p idx Hn. cbn [plain]. rewrite (hidden_false sd inl _ attrs Hs).
+  cbn [negb andb]. cbn [nsd] in Hn. apply andb_true_iff in Hn. destruct Hn as [Hsup Hk].
+  destruct (html && kind_leaf (kind_of name)); [reflexivity|]. apply andb_true_iff. split.
+  - clear Hsup. generalize 1%Z. induction kids as [|k kids IHk]; intros i; [reflexivity|].
+    inversion IH as [|? ? Hk1 Hk2]; subst. cbn [forallb] in Hk. apply andb_true_iff in Hk.
+    destruct Hk as [Hka Hkb]. cbn [blk_of]. rewrite (Hk1 _ i Hka). cbn [andb]. apply IHk; assumption.
+  - destruct html; [|reflexivity]. destruct (kind_of name); try reflexivity.
+    destruct (pk_of _ kids 1%Z) as [cs| | |] eqn:Epk; try reflexivity.
+    destruct (sup_digits cs) as [ds|] eqn:Esd; [|reflexivity]. exfalso.
+    unfold sup_digits in Esd. destruct cs as [|x [|y cs']]; try discriminate Esd.
+    destruct (rn_info x) as [s| | | | | | | | | | | | | | | | | | | | | | | |] eqn:Ex; try discriminate Esd.
+    destruct (forallb is_ascii_digit s) eqn:Ed; [|discriminate Esd].
+    destruct (pk_text_origin _ _ _ _ _ _ _ Epk x (or_introl eq_refl)) as (s' & Hin & E').
+    { unfold is_text. rewrite Ex. reflexivity. }
+    rewrite Ex in E'. injection E' as <-.
+    apply negb_true_iff in Hsup. assert (existsb digit_text kids = true); [|congruence].
+    apply existsb_exists. exists (NText s). split; [exact Hin|exact Ed].
+Qed.
+
+Lemma dom_plain_suff sd inl doc :
+  sheet_no_hide sd = true -> dom_nsd doc = true -> dom_plain sd false inl doc = true.
+Proof.
+  intros Hs Hn. unfold dom_plain, dom_nsd in *. generalize 1%Z.
+  induction doc as [|k doc IH]; intros i; [reflexivity|]. cbn [forallb] in Hn.
+  apply andb_true_iff in Hn. destruct Hn as [H1 H2]. cbn [blk_of].
+  rewrite (plain_suff sd inl Hs k [] i H1). cbn [andb]. apply IH, H2.
+Qed.
+
+Lemma doc_plain_suff ist dr (c : config) doc :
+  c_use_doc_css c = false -> sheet_no_hide (c_sd c) = true -> dom_nsd doc = true ->
+  doc_plain ist dr c doc = true.
+Proof.
+  intros Hu Hs Hn. unfold doc_plain, effective_sd. rewrite Hu. apply dom_plain_suff; assumption.
+Qed.
+
+(* ================================================================== *)
+(* 6. End-to-end corollaries                                            *)
+(* ================================================================== *)
+Section Routes4.
+  Variable inline_styles : list (text * text) -> res (list styledecl).
+  Variable doc_rules : list node -> res (list ruleset).
+
+  (* C03 from the document to the output (table-free documents: exact order) *)
+  Theorem c03_dom_string : forall (c : config) (doc : list node) (width : N) (t : text),
+    deco_made (c_deco c) ->
+    dom_regular doc = true -> dom_ntab doc = true -> doc_plain inline_styles doc_rules c doc = true ->
+    string_from_read inline_styles doc_rules c doc width = Ok t ->
+    filter docp t = dom_visible doc.
+  Proof.
+    intros c doc width t Hd Hr Hn Hp H.
+    destruct (to_render_tree inline_styles doc_rules c doc) as [tree| | |] eqn:Et;
+      try (unfold string_from_read in H; rewrite Et in H; discriminate H).
+    destruct (c14_dom_tree inline_styles doc_rules c doc tree Hd Hr Hn Hp Et) as (Hnt & _ & _).
+    rewrite (c03_string_from_read _ _ _ _ _ _ _ Hd Et Hnt H).
+    apply (c03_dom_visible inline_styles doc_rules c doc tree Hr Hp Et).
+  Qed.
+
+  Theorem c03_dom_lines : forall (c : config) (doc : list node) (width : N) (tls : list tline),
+    deco_made (c_deco c) ->
+    dom_regular doc = true -> dom_ntab doc = true -> doc_plain inline_styles doc_rules c doc = true ->
+    lines_from_read inline_styles doc_rules c doc width = Ok tls ->
+    filter docp (flat_map tl_string tls) = dom_visible doc.
+  Proof.
+    intros c doc width tls Hd Hr Hn Hp H.
+    destruct (to_render_tree inline_styles doc_rules c doc) as [tree| | |] eqn:Et;
+      try (unfold lines_from_read in H; rewrite Et in H; discriminate H).
+    destruct (c14_dom_tree inline_styles doc_rules c doc tree Hd Hr Hn Hp Et) as (Hnt & _ & _).
+    rewrite (c03_lines_from_read _ _ _ _ _ _ _ Hd Et Hnt H).
+    apply (c03_dom_visible inline_styles doc_rules c doc tree Hr Hp Et).
+  Qed.
+
+  (* the same with the purely syntactic side conditions of section 5 *)
+  Corollary c03_dom_string_syntactic : forall (c : config) (doc : list node) (width : N) (t : text),
+    deco_made (c_deco c) -> c_use_doc_css c = false -> sheet_no_hide (c_sd c) = true ->
+    dom_regular doc = true -> dom_ntab doc = true -> dom_nsd doc = true ->
+    string_from_read inline_styles doc_rules c doc width = Ok t ->
+    filter docp t = dom_visible doc.
+  Proof.
+    intros c doc width t Hd Hu Hs Hr Hn Hsd H.
+    apply (c03_dom_string c doc width t Hd Hr Hn (doc_plain_suff _ _ c doc Hu Hs Hsd) H).
+  Qed.
+End Routes4.
+Print Assumptions c03_dom_string.
+Print Assumptions c03_dom_lines.
+Print Assumptions c03_dom_string_syntactic.
+
+(* ================================================================== *)
+(* 7. Examples: non-vacuity, necessity of the side conditions           *)
+(* ================================================================== *)
+From H2T Require CssParse.
+Module DomRelExamples.
+Import String Ascii CssParse.
+Local Open Scope string_scope.
+Local Open Scope N_scope.
+
+Fixpoint lN (s : string) : list N :=
+  match s with EmptyString => [] | String a s' => N_of_ascii a :: lN s' end.
+(* a text whose characters carry the labels l0, l0+1, ... (space, tab, newline are whitespace) *)
+Fixpoint lab_from (l0 : N) (l : list N) : text :=
+  match l with
+  | [] => []
+  | c :: l' => mkchr c (Some 1) ((c =? 32) || (c =? 10) || (c =? 9)) l0 :: lab_from (l0 + 1) l'
+  end.
+Definition tx (l0 : N) (s : string) : node := NText (lab_from l0 (lN s)).
+Definition txc (s : string) : node :=
+  NText (List.map (fun c => mkchr c (Some 1) ((c =? 32) || (c =? 10) || (c =? 9)) 16) (lN s)).
+Definition nm (s : string) : text := of_ascii (lN s).
+Definition el (name : string) (attrs : list (string * string)) (kids : list node) : node :=
+  NElem true (nm name) (List.map (fun kv => (nm (fst kv), nm (snd kv))) attrs) kids.
+Definition xel (name : string) (attrs : list (string * string)) (kids : list node) : node :=
+  NElem false (nm name) (List.map (fun kv => (nm (fst kv), nm (snd kv))) attrs) kids.
+Definition img (l0 : N) (src alt : string) : node :=
+  NElem true (nm "img") [(nm "src", nm src); (nm "alt", lab_from l0 (lN alt))] [].
+Definition labs (t : text) : list N := List.map lab t.
+Definition sh (l : list sitem) : list (list N + N) :=
+  List.map (fun x => match x with inl n => inl (cps n) | inr c => inr (lab c) end) l.
+Definition tree_of (c : config) (doc : list node) : res rnode :=
+  to_render_tree inline_styles doc_rules c doc.
+
+(* <html><head><title>T</title></head><body><h1 id=top>Hi <em>there</em></h1>
+   <p>a <a href=u id=l>link</a> <img src=s alt=pic> x<sup>1<i>st</i></sup><!----></p>
+   <ul><li id=i1>x</li> <li>y</li></ul><ol> <li>one</li><span id=e></span></ol>
+   <blockquote id=q>quo</blockquote><dl><dt>t</dt><dd id=d>dd</dd></dl>
+   <a href=v> <b id=lost></b></a><script id=s>js</script><svg><style>css</style></svg> *)
+Definition ex1 : list node :=
+  [el "html" []
+    [el "head" [] [el "title" [] [tx 900 "T"]];
+     el "body" []
+      [el "h1" [("id","top")] [tx 100 "Hi "; el "em" [] [tx 110 "there"]];
+       tx 120 "
+ ";
+       el "p" [] [tx 130 "a "; el "a" [("href","u"); ("id","l")] [tx 140 "link"]; tx 150 " ";
+                  img 155 "s" "pic"; tx 160 " x";
+                  el "sup" [] [tx 170 "1"; el "i" [] [tx 175 "st"]]; NComment];
+       el "ul" [] [el "li" [("id","i1")] [tx 200 "x"]; tx 205 " "; el "li" [] [tx 210 "y"]];
+       el "ol" [] [tx 220 " "; el "li" [] [tx 230 "one"]; el "span" [("id","e")] []];
+       el "blockquote" [("id","q")] [tx 240 "quo"];
+       el "dl" [] [el "dt" [] [tx 250 "t"]; el "dd" [("id","d")] [tx 260 "dd"]];
+       el "a" [("href","v")] [tx 270 " "; el "b" [("id","lost")] []];
+       el "script" [("id","s")] [tx 280 "js"];
+       xel "svg" [] [xel "style" [] [tx 290 "css"]]]]].
+
+(* the hypotheses hold (dom_nsd does not: <sup>1<i>st</i></sup> has a digit text child, but is
+   not rendered with the digit replacement - dom_nsd is only sufficient for doc_plain) *)
+Example ex1_hyps :
+  dom_regular ex1 = true /\ dom_ntab ex1 = true /\
+  doc_plain inline_styles doc_rules cfg_plain ex1 = true /\ dom_nsd ex1 = false.
+Proof. vm_compute. repeat split; reflexivity. Qed.
+
+(* the specification: head and script skipped, whitespace dropped, alt text (155..) included,
+   the non-HTML <style> is ordinary text *)
+Example ex1_visible :
+  labs (dom_visible ex1) =
+  [100; 101; 110; 111; 112; 113; 114; 130; 140; 141; 142; 143; 155; 156; 157; 161; 170; 175; 176;
+   200; 210; 230; 231; 232; 240; 241; 242; 250; 260; 261; 290; 291; 292].
+Proof. vm_compute. reflexivity. Qed.
+
+(* PART 1 applies ... *)
+Example ex1_c03_tree : forall tree,
+  tree_of cfg_plain ex1 = Ok tree -> leaf_stream tree = dom_visible ex1.
+Proof.
+  intros tree. apply c03_dom_visible; vm_compute; reflexivity.
+Qed.
+Example ex1_c03_string : forall t,
+  string_from_read inline_styles doc_rules cfg_plain ex1 20 = Ok t -> filter docp t = dom_visible ex1.
+Proof.
+  intros t. apply c03_dom_string; [exact deco_made_plain|vm_compute; reflexivity..].
+Qed.
+(* ... and is not vacuous: the route answers Ok, and the independently computed label sequence
+   of the output string is the one of ex1_visible *)
+Example ex1_c03_check :
+  match string_from_read inline_styles doc_rules cfg_plain ex1 20 with
+  | Ok t => labs (filter docp t) = labs (dom_visible ex1) /\ (0 <? tlen t) = true
+  | _ => False
+  end.
+Proof. vm_compute. split; reflexivity. Qed.
+
+(* PART 2: the specification streams (markers as code points, characters as labels): the
+   markers of the empty <span id=e> (dropped by <ol>) and of <b id=lost> (inside a dropped
+   link) are in dom_all only; <script id=s> carries a marker although it is skipped *)
+Example ex1_live :
+  sh (dom_live ex1) =
+  [inl [116; 111; 112]; inr 100; inr 101; inr 110; inr 111; inr 112; inr 113; inr 114; inr 130;
+   inl [108]; inr 140; inr 141; inr 142; inr 143; inr 155; inr 156; inr 157; inr 161; inr 170;
+   inr 175; inr 176; inl [105; 49]; inr 200; inr 210; inr 230; inr 231; inr 232; inl [113];
+   inr 240; inr 241; inr 242; inr 250; inl [100]; inr 260; inr 261; inr 290; inr 291; inr 292].
+Proof. vm_compute. reflexivity. Qed.
+Example ex1_all :
+  sh (dom_all ex1) =
+  [inl [116; 111; 112]; inr 100; inr 101; inr 110; inr 111; inr 112; inr 113; inr 114; inr 130;
+   inl [108]; inr 140; inr 141; inr 142; inr 143; inr 155; inr 156; inr 157; inr 161; inr 170;
+   inr 175; inr 176; inl [105; 49]; inr 200; inr 210; inr 230; inr 231; inr 232; inl [101];
+   inl [113]; inr 240; inr 241; inr 242; inr 250; inl [100]; inr 260; inr 261;
+   inl [108; 111; 115; 116]; inl [115]; inr 290; inr 291; inr 292].
+Proof. vm_compute. reflexivity. Qed.
+Example ex1_c14 : forall tls,
+  lines_from_read inline_styles doc_rules cfg_plain ex1 20 = Ok tls ->
+  btw (dom_live ex1) (flat_map mline tls) (dom_all ex1).
+Proof.
+  intros tls. apply c14_dom_lines; [exact deco_made_plain|vm_compute; reflexivity..].
+Qed.
+Example ex1_c14_check :
+  match lines_from_read inline_styles doc_rules cfg_plain ex1 20 with
+  | Ok tls =>
+    sh (flat_map mline tls) =
+    [inl [116; 111; 112]; inr 100; inr 101; inr 110; inr 111; inr 112; inr 113; inr 114; inr 130;
+     inl [108]; inr 140; inr 141; inr 142; inr 143; inr 155; inr 156; inr 157; inr 161; inr 170;
+     inr 175; inr 176; inl [105; 49]; inr 200; inr 210; inr 230; inr 231; inr 232; inl [113];
+     inr 240; inr 241; inr 242; inr 250; inl [100]; inr 260; inr 261; inl [115]; inr 290; inr 291;
+     inr 292]
+  | _ => False
+  end.
+Proof. vm_compute. reflexivity. Qed.
+
+(* PART 1 with a table: <table id=tb> <thead><tr><th>h1<th>h2</tr></thead>
+   <tbody><tr><td colspan=2>wide</td></tr> </tbody><caption></caption></table> *)
+Definition extab : list node :=
+  [el "table" [("id","tb")]
+      [tx 90 " ";
+       el "thead" [] [el "tr" [] [el "th" [] [tx 100 "h1"]; el "th" [] [tx 105 "h2"]]];
+       el "tbody" [] [el "tr" [] [el "td" [("colspan","2")] [tx 110 "wide"]]; tx 115 " "];
+       el "caption" [] []]].
+Example extab_c03 :
+  dom_regular extab = true /\ doc_plain inline_styles doc_rules cfg_plain extab = true /\
+  match tree_of cfg_plain extab with
+  | Ok t => labs (leaf_stream t) = [100; 101; 105; 106; 110; 111; 112; 113] /\
+            leaf_stream t = dom_visible extab
+  | _ => False
+  end.
+Proof.
+  split; [vm_compute; reflexivity|]. split; [vm_compute; reflexivity|].
+  destruct (tree_of cfg_plain extab) as [t| | |] eqn:E; try (vm_compute in E; discriminate E).
+  split; [vm_compute in E; injection E as <-; vm_compute; reflexivity|].
+  apply (c03_dom_visible inline_styles doc_rules cfg_plain extab t); [vm_compute; reflexivity..|exact E].
+Qed.
+
+(* ---- each exclusion is needed: the document, (dom_regular, doc_plain), the labels of
+   dom_visible and of the tree's leaves ---- *)
+Definition rep (c : config) (doc : list node) :=
+  (dom_regular doc, doc_plain inline_styles doc_rules c doc, labs (dom_visible doc),
+   match tree_of c doc with Ok t => Some (labs (leaf_stream t)) | _ => None end).
+
+(* (i) <ol>text<li>a</li></ol> loses "text" *)
+Example need_i :
+  rep cfg_plain [el "ol" [] [tx 100 "text"; el "li" [] [tx 110 "a"]]] =
+  (false, true, [100; 101; 102; 103; 110], Some [110]).
+Proof. vm_compute. reflexivity. Qed.
+(* (i), (ii) <table>loose<tbody><tr><td>c</td></tr></tbody><tfoot><tr><td>f</td></tr></tfoot></table> *)
+Example need_ii :
+  rep cfg_plain [el "table" [] [tx 100 "loose"; el "tbody" [] [el "tr" [] [el "td" [] [tx 110 "c"]]];
+                                el "tfoot" [] [el "tr" [] [el "td" [] [tx 120 "f"]]]]] =
+  (false, true, [100; 101; 102; 103; 104; 110; 120], Some [110]).
+Proof. vm_compute. reflexivity. Qed.
+(* (iii) is part of the specification: <p><img alt=alt>z</p> - the alt text (labels 100..) is
+   not in dom_visible *)
+Example spec_iii :
+  rep cfg_plain [el "p" [] [NElem true (nm "img") [(nm "alt", lab_from 100 (lN "alt"))] []; tx 110 "z"]] =
+  (true, true, [110], Some [110]).
+Proof. vm_compute. reflexivity. Qed.
+(* (iv) <p><sup>47</sup></p> and <p><sup>47<span></span></sup></p>: the labels are kept, the
+   characters are not (U+2074 U+2077 for "47") *)
+Example need_iv :
+  let d1 := [el "p" [] [el "sup" [] [tx 100 "47"]]] in
+  let d2 := [el "p" [] [el "sup" [] [tx 100 "47"; el "span" [] []]]] in
+  rep cfg_plain d1 = (true, false, [100; 101], Some [100; 101]) /\
+  rep cfg_plain d2 = (true, false, [100; 101], Some [100; 101]) /\
+  cps (dom_visible d1) = [52; 55] /\
+  match tree_of cfg_plain d1 with Ok t => cps (leaf_stream t) = [8308; 8311] | _ => False end.
+Proof. vm_compute. repeat split; reflexivity. Qed.
+(* (v) needs no exclusion: <p>a<a href=u> </a>b</p> *)
+Example no_need_v :
+  rep cfg_plain [el "p" [] [tx 100 "a"; el "a" [("href","u")] [tx 110 " "]; tx 120 "b"]] =
+  (true, true, [100; 120], Some [100; 120]).
+Proof. vm_compute. reflexivity. Qed.
+(* nesting: <div><td>x</td></div> (not parser output; `unreachable!` in the renderer) *)
+Example need_nesting :
+  rep cfg_plain [el "div" [] [el "td" [] [tx 100 "x"]]] = (false, true, [100], Some []).
+Proof. vm_compute. reflexivity. Qed.
+(* hidden by CSS: <p style="display:none">h</p><p>v</p> with document CSS *)
+Example need_shown :
+  rep (set_doc_css cfg_plain) [el "p" [("style","display:none")] [tx 100 "h"]; el "p" [] [tx 110 "v"]] =
+  (true, false, [100; 110], Some [110]).
+Proof. vm_compute. reflexivity. Qed.
+
+(* PART 3: <p>hello   world\n again<b> x  </b></p>  <p>z</p>  against
+           <p>hello world again<b>\tx </b></p>\n<p>z</p> *)
+Definition ex3a : list node :=
+  [el "p" [] [txc "hello   world
+ again"; el "b" [] [txc " x  "]]; txc "  "; el "p" [] [txc "z"]].
+Definition ex3b : list node :=
+  [el "p" [] [txc "hello world again"; el "b" [] [txc "	x "]]; txc "
+"; el "p" [] [txc "z"]].
+Example ex3_hyps :
+  dom_ws_equiv ex3a ex3b /\ c_use_doc_css cfg_plain = false /\
+  doc_tree_ok inline_styles doc_rules cfg_plain ex3a = true /\
+  doc_tree_ok inline_styles doc_rules cfg_plain ex3b = true.
+Proof. repeat split; vm_compute; reflexivity. Qed.
+Example ex3_c13 : forall w,
+  string_from_read inline_styles doc_rules cfg_plain ex3a w =
+  string_from_read inline_styles doc_rules cfg_plain ex3b w.
+Proof.
+  intros w. destruct ex3_hyps as (E & U & O1 & O2).
+  exact (proj1 (c13_dom_nodoccss inline_styles doc_rules cfg_plain ex3a ex3b w U E O1 O2)).
+Qed.
+Example ex3_check :
+  match string_from_read inline_styles doc_rules cfg_plain ex3a 20 with
+  | Ok t => cps t = [104; 101; 108; 108; 111; 32; 119; 111; 114; 108; 100; 32; 97; 103; 97; 105; 110;
+                     32; 120; 10; 10; 122; 10]
+  | _ => False
+  end.
+Proof. vm_compute. reflexivity. Qed.
+(* the syntactic corollary applies to ex3a *)
+Example ex3_c03_syntactic : forall t,
+  string_from_read inline_styles doc_rules cfg_plain ex3a 20 = Ok t -> filter docp t = dom_visible ex3a.
+Proof.
+  intros t. apply c03_dom_string_syntactic; [exact deco_made_plain|vm_compute; reflexivity..].
+Qed.
+End DomRelExamples.
+
+(* ================================================================== *)
+(* SUMMARY                                                              *)
+(* ================================================================== *)
+(* Vocabulary (all computable):
+     kind_of name          the element kind, by the if-chains of process / build_element
+                           (html_base_eq: process's element-specific part = base_of (kind_of name))
+     dom_vis / dom_visible THE SPECIFICATION of Part 1: doc_chars of text nodes and of the alt text
+                           of <img> with a non-empty src (img_attrs), in document order; nothing
+                           below HTML link, meta, hr, script, style, head, br, img
+     dom_regular doc       syntactic: (i)/(ii) a child of <ol> that is not <li>, of <dl> not
+                           <dt>/<dd>, of <table> not <thead>/<tbody>, of <thead>/<tbody> not <tr>,
+                           of <tr> not <th>/<td> has NO visible character (vis_empty); and the table
+                           elements are nested as the parser nests them (<thead>/<tbody>/<tr>/<td>/
+                           <th> only as children of <table> / <table>,<thead>,<tbody> / <tr>)
+     doc_plain c doc       at the style data the route uses (effective_sd), along the traversal of
+                           `process`: no reachable element is hidden (Prune.hidden = false), and no
+                           <sup> is rendered with the digit replacement (sup_digits of its processed
+                           children = None)
+     sheet_no_hide, dom_nsd  syntactic sufficient condition for doc_plain when document CSS is off
+                           (doc_plain_suff): no display:none in the style data; no <sup> with an
+                           all-digit text child
+     dom_ntab doc          no HTML table/thead/tbody/tr/th/td element (Part 2: FragStream.mtree
+                           does not cover tables)
+     dom_all / dom_live    Part 2 specification streams: visible characters and the marker of
+                           every element with a fragment name (frag_name: first id, for <a> also
+                           name) / only of those with a visible character in their subtree
+     dnorm, dom_ws_equiv   Part 3: SimRel.normalise on every text node; equal normal forms
+
+   PART 1 (C03)
+     c03_dom_visible :  dom_regular doc = true -> doc_plain c doc = true ->
+                        to_render_tree ist dr c doc = Ok tree -> leaf_stream tree = dom_visible doc
+     c03_dom_doc_stream (deco_made: doc_stream (c_deco c) tree = dom_visible doc),
+     c03_dom_string, c03_dom_lines (table-free: filter docp <output> = dom_visible doc),
+     c03_dom_string_syntactic.  Tables are included in c03_dom_visible (example extab_c03);
+     compose with RenderConserve.c03_render_tree_perm for the output.
+     Recorded deviations: (i), (ii) excluded by dom_regular exactly when something visible is
+     lost (whitespace text and empty elements between list items / rows are allowed);
+     (iii) is built into dom_vis (spec_iii); (iv) excluded by doc_plain (semantically exact:
+     need_iv shows <sup>47<span></span></sup> is replaced as well - the test looks at the
+     PROCESSED children); (v) needs no exclusion: shallow_empty_leaf / all_shallow_empty_leaf:
+     a dropped link has no visible character (no_need_v).
+     Excluded beyond (i)-(v): mis-nested table elements (need_nesting: <div><td>x</td></div>
+     builds IDiv [ITableCell ..], leaf_stream [], and render_node panics with site 60; this is
+     side condition (2) of RenderTotal.dom_ok, not parser output); CSS-hidden elements
+     (need_shown), as the task allows.  Slightly stronger than RenderTotal.dok: the children of
+     an ordinary element are always checked strictly (dok inherits non-strictness below a
+     dropped child of a table element).
+
+   PART 2 (C14), deco_made decorator, no overflow, table-free regular plain document:
+     c14_dom_tree  : no_table tree = true /\
+                     msub (dom_live doc) (strip (mstream_min d tree)) /\
+                     msub (mstream_tree d tree) (dom_all doc)
+     c14_dom_lines : lines_from_read .. = Ok tls -> btw (dom_live doc) (flat_map mline tls) (dom_all doc)
+     c14_dom_markers : the same in words (1)-(4); dml_marker: a live element's marker stands
+                     directly in front of the element's own stream.
+     Which elements carry a marker: EVERY processed element with a fragment name, HTML or not,
+     including <br>, <img>, <hr>, <script>, <style>, <head>, <link>, <meta> (ex1: <script id=s>)
+     - unless hidden by CSS, below a skipped element, dropped by the parent (<ol>/<dl> filter,
+     children of a dropped shallow-empty link: ex1 `e`, `lost`; these have no visible character),
+     or a table element (attached to the first cell of the first row; lost when there is none:
+     recorded finding row_marker_in_empty_first_cell; tables are outside FragStream's stream).
+
+   PART 3 (C13): no regularity hypothesis at all.
+     c13_dom_trees : dom_ws_equiv doc1 doc2 -> effective_sd dr c doc1 = effective_sd dr c doc2 ->
+                     rmap norm_tree (to_render_tree ist dr c doc1) =
+                     rmap norm_tree (to_render_tree ist dr c doc2)
+                     (the same failure, or ws_equiv trees: c13_dom_ws_equiv)
+     c13_dom_string, c13_dom_nodoccss : with SimRel.tree_ok of both trees (doc_tree_ok): the
+                     routes string_from_read / lines_from_read give the very same result.
+     The hypothesis on effective_sd holds when document CSS is off; with document CSS the text of
+     <style> elements is CSS source whose whitespace is not covered.  What matters about
+     whitespace-only text nodes: `process` turns every text node into a node (never drops one),
+     is_shallow_empty only asks whether trim t = [] <-> all_ws t (trim_nil_iff,
+     shallow_empty_norm), and the emptiness tests (pending_noempty) count nodes.
+
+   NOT PROVED: Part 2 for documents with tables (FragStream has no table stream); Part 1/2 for
+   documents with CSS-hidden elements (prune first: Prune.prune_equiv); Part 3 with differing
+   <style> whitespace under document CSS. *)
